@@ -9,6 +9,7 @@ SUBNAMES = ["t", "lat", "at", "la"]     # names that are substrings of one anoth
 DEFAULTISH = ["x1", "x0", "x3", "x2"]   # the library's default names x<i>, attached to other positions than i
 WORDS = ["a", "b", "c", "d", "e", "f", "g", "h", "k", "m"]
 NUMWORDS = ["2", "10", "7", "05", "1e3", "-1", "3.5"]        # strings that look like numbers (they are strings)
+PREFIXWORDS = ["run1", "run10", "run2", "run20", "ru", "run", "b1", "b"]      # words that are prefixes of one another, of different lengths
 
 
 def names_pool():
@@ -55,7 +56,9 @@ def labels(draw, n, kind=None, order=None, kinds="ifs"):
         else:
             vals = [k / 10.0 for k in ks] if c in (1, 2) else [k / 4.0 for k in ks]
     else:
-        vals = draw(st.lists(st.sampled_from(NUMWORDS if n <= len(NUMWORDS) and draw(st.integers(0, 7)) == 0 else WORDS), min_size=n, max_size=n, unique=True))
+        c = draw(st.integers(0, 15))
+        pool_ = NUMWORDS if (c in (0, 1) and n <= len(NUMWORDS)) else (PREFIXWORDS if (c in (2, 3) and n <= len(PREFIXWORDS)) else WORDS)
+        vals = draw(st.lists(st.sampled_from(pool_), min_size=n, max_size=n, unique=True))
     if order == "inc":
         vals = sorted(vals)
     elif order == "dec":
